@@ -40,7 +40,7 @@ COMPONENTS = {
              'script_job.py', 'light_set / lifx_lan_* / lifxlan'],
     'stub': ['thread scheduling', 'clock', 'UDP network', 'bulb firmware'],
 }
-PROBES = ['delay_blocked_on_tick', 'behind_schedule_no_block',
+PROBES = ['hour_boundary_watched', 'delay_blocked_on_tick', 'behind_schedule_no_block',
           'tick_missed_between_test_and_wait', 'time_of_day_wait_blocked',
           'time_of_day_already_matching', 'zero_delay', 'raw_units_delay',
           'work_longer_than_delay', 'due_coincides_with_tick', 'stall']
@@ -55,8 +55,88 @@ def runs_for(tier):
 
 
 # ---------------------------------------------------------------------------
+def gen_named(rng):
+    """Time-of-day patterns held in a macro (the parser accepts literals and
+    macros after `time at`, not variables) and used more than
+    once: `time at tp0 or B` ... `time at tp0`.  Patterns `*:*D` recur every
+    ten minutes, so the second wait stays short."""
+    from sim import policy
+    tick = rng.choice([1.0, 1.0, 7.0])
+    pop = [{'label': 'Top', 'product': 27, 'group': 'G', 'location': 'L',
+            'latency': 0.001},
+           {'label': 'Lamp', 'product': 27, 'group': 'G', 'location': 'L',
+            'latency': 0.004}]
+    hour, minute = rng.randint(0, 23), rng.randint(0, 40)
+    second = rng.choice([0.0, 3.2, 41.3])
+    est_min = minute + (1 if second + 1.2 < 60 else 2)
+    d1 = (est_min + rng.choice([0, 1])) % 10
+    if d1 == 9:
+        d1 = 0          # minute 59 never matches on this tree (C11)
+    k = rng.choice([1, 2, 3, 5])
+    d2 = (d1 + k) % 10
+    if d2 == 9:
+        d2 = (d2 + 1) % 10
+    named = {'tp0': ['define', '*:*{}'.format(d1)]}
+    alt = '*:*{}'.format(d2)
+    alt_name = None
+    if rng.random() < 0.4:
+        alt_name = 'tp1'
+        named['tp1'] = ['define', alt]
+    steps = []
+    first = {'at': named['tp0'][1], 'at_name': 'tp0', 'raw': False,
+             'what': rng.choice(['cmd', 'and'])}
+    if rng.random() < 0.8:
+        first['at_or'] = [alt]
+        first['at_or_names'] = [alt_name]
+        first['at_or_first'] = rng.random() < 0.4
+    steps.append(first)
+    for _ in range(rng.randint(0, 2)):
+        steps.append({'d': rng.choice([1.0, 2.75, tick * 2, 45.0, 70.0]),
+                      'raw': False, 'what': rng.choice(['cmd', 'cmd2'])})
+    if rng.random() < 0.3 and alt_name:
+        steps.append({'at': alt, 'at_name': alt_name, 'raw': False,
+                      'what': 'cmd'})
+        steps.append({'d': 1.0, 'raw': False, 'what': 'cmd'})
+    steps.append({'at': named['tp0'][1], 'at_name': 'tp0', 'raw': False,
+                  'what': rng.choice(['cmd', 'and'])})
+    steps.append({'d': rng.choice([1.0, tick * 1.5]), 'raw': False,
+                  'what': 'cmd'})
+    pol = policy.draw_policy(rng, est_len=500, stalls=True)
+    pol['p_stall'] = min(pol['p_stall'], 0.02)
+    return {'policy': pol, 'population': pop, 'tick': tick,
+            'start': [hour, minute, second], 'steps': steps, 'twice': False,
+            'bystander': None, 'named': named}
+
+
+def gen_edge(rng):
+    """A time-of-day wait that is pending across the top of an hour, for a
+    pattern naming the hour that is ending and minute 00: it must not end
+    before tomorrow.  Reading the wall clock costs a little virtual time, so
+    consecutive reads straddle the boundary in some runs."""
+    from sim import policy
+    tick = rng.choice([0.25, 0.5, 1.0])
+    hour = rng.randint(0, 23)
+    pop = [{'label': 'Top', 'product': 27, 'group': 'G', 'location': 'L',
+            'latency': 0.001}]
+    pat = rng.choice(['{}:00', '{}:0*', '{}:*0']).format(hour)
+    pol = policy.draw_policy(rng, est_len=300, stalls=True)
+    pol['p_stall'] = min(pol['p_stall'], 0.02)
+    return {'policy': pol, 'population': pop, 'tick': tick,
+            'start': [hour, 59, rng.choice([44.0, 50.3, 55.1])],
+            'steps': [{'at': pat, 'what': 'cmd', 'raw': False}],
+            'twice': False, 'bystander': None,
+            'edge': {'read_cost': rng.choice([0.0004, 0.03, tick * 0.4,
+                                              tick * 0.9]),
+                     'watch': 30.0}}
+
+
 def gen(rng, tier, index):
     from sim import policy
+    k = rng.random()
+    if k < 0.05:
+        return gen_named(rng)
+    if k < 0.08:
+        return gen_edge(rng)
     tick = rng.choice([0.01, 0.05, 0.1, 0.5, 1.0, 7.0])
     pop = [{'label': 'Top', 'product': 27, 'group': 'G', 'location': 'L',
             'latency': rng.choice([0.001, 0.02])},
@@ -127,6 +207,19 @@ def gen(rng, tier, index):
             st['d'] = d
             cur_d = d
             pattern_active = False
+        elif kind == 'keep' and not pattern_active and rng.random() < 0.45:
+            # the time register keeps its value across a units switch (the
+            # VM converts it, the delay stays what it was)
+            mode = rng.choice([m for m in ('raw', 'logical', 'rgb')
+                               if m != cur_mode])
+            cur_mode = mode
+            raw = mode == 'raw'
+            st['units'] = mode
+            if rng.random() < 0.3:
+                st['units_then'] = rng.choice(
+                    [m for m in ('raw', 'logical', 'rgb') if m != mode])
+                cur_mode = st['units_then']
+                raw = cur_mode == 'raw'
         # 'keep': the time register keeps its value
         st['raw'] = raw
         what = rng.choice(['cmd', 'cmd', 'cmd2', 'and', 'wait_cmd', 'get',
@@ -191,16 +284,27 @@ def build_script(sc):
         lines.append('kelvin {} set {}'.format(1500 + tag, target_text))
         return tag
 
+    for name, (how, pat) in sorted((sc.get('named') or {}).items()):
+        lines.append('{} {} {}'.format(how, name, pat))
     for st in sc['steps']:
         if st.get('units'):
             lines.append('units ' + st['units'])
             raw = st['units'] == 'raw'
+            if st.get('units_then'):
+                lines.append('units ' + st['units_then'])
+                raw = st['units_then'] == 'raw'
         if 'at' in st:
             pats = [st['at']]
+            shown = [st.get('at_name') or st['at']]
             if st.get('at_or'):
+                alts = [n or q for n, q in zip(
+                    st.get('at_or_names') or [None] * len(st['at_or']),
+                    st['at_or'])]
                 pats = (st['at_or'] + pats) if st.get('at_or_first') \
                     else (pats + st['at_or'])
-            lines.append('time at ' + ' or '.join(pats))
+                shown = (alts + shown) if st.get('at_or_first') \
+                    else (shown + alts)
+            lines.append('time at ' + ' or '.join(shown))
             cur = ('at', pats)
         elif 'd' in st:
             d = st['d']
@@ -391,9 +495,21 @@ def execute(scenario, chooser):
         if not st['compiled']:
             st['errors'] = job.compile_errors
             return
+        if sc.get('edge'):
+            sim.clock_read_cost = sc['edge']['read_cost']
         agent = jc.add_job(job, 'main')
         th = world.thread_of_agent(sim, agent)
         st['job_threads'] = [th.name]
+        if sc.get('edge'):
+            # watch the pending wait across the hour boundary, then end it
+            sim.sleep(sc['edge']['watch'])
+            st['watched_until'] = sim.now
+            st['wire_then'] = world.wire_timed(net, st['mark'],
+                                               ('LightSetColor',))
+            agent.request_stop()
+            sim.join(th)
+            st['ended'] = sim.now
+            return
         by = sc.get('bystander')
         if by:
             sim.sleep(by['after'])
@@ -455,6 +571,17 @@ def execute(scenario, chooser):
     res['faults']['stall'] = sim.stats.get('stall', 0)
     res['faults']['spin_advance'] = sim.stats.get('spin_advance', 0)
     res['faults']['thread_preemption'] = sim.switches
+    if sc.get('edge'):
+        probes['hour_boundary_watched'] = 1
+        if st.get('wire_then'):
+            w = st['wire_then'][0]
+            violation('time-of-day/early',
+                      'a wait for {} was pending at {:02d}:59; the awaited '
+                      'time does not arrive before tomorrow, yet the command '
+                      'behind it reached its device at t={:.6f} ({})'.format(
+                          sc['steps'][0]['at'], sc['start'][0], w[1],
+                          start_dt + datetime.timedelta(seconds=w[1])))
+        return res
     marks = [st['mark'], st.get('mark2')]
     for k, jt in enumerate(st['job_threads']):
         st['job_thread'] = jt
